@@ -55,7 +55,7 @@ func C12(c *Ctx) error {
 		var req *ir.Request
 		switch i % 3 {
 		case 0:
-			req = gen.GenRouteFile(rr, idx, gen.RouteOpts{})
+			req = gen.GenRouteFile(rr, idx, gen.RouteOpts{QueryNameClash: i%2 == 0})
 		default:
 			f := gen.GenAnnotFile(rr, idx, gen.AnnotOpts{Combos: i%2 == 0})
 			req = &ir.Request{Files: []*ir.File{f}, Generate: []string{f.Name}}
